@@ -298,3 +298,59 @@ UNIT_A = Unit("mmap_log_a", FNS_A, spec=SPEC_A, model="A",
               assumptions=["the meta-theorem 'every interleaving of protocol-conformant steps yields a log whose visible prefix is completely written and totally ordered' is NOT mechanised",
                            "termination of the publication spin loop (waiting for earlier tickets) is not proved"])
 UNITS = [UNIT, UNIT_A]
+
+
+# ------------------------------------------------------------------------------------------------------------------------------------
+# mmap_log_file_name: `MmapLog::new(name)` derives the backing file of the log from the channel's name. C03 / C09: each Multi has ITS OWN log --
+# two live channels with different names must never map to the same file (MMapMeta::new truncates and re-maps it: they would share tails and
+# slots, and listeners would be handed the other channel's events). Obligation generated from the real text on every run: the per-character
+# mapping spliced VERBATIM from the closure inside `new` is injective. (That `chars().map(f).collect()` and `format!("/tmp/{}.mmap", s)` are
+# injective when f is: properties of std, ASSUMED.)
+# ------------------------------------------------------------------------------------------------------------------------------------
+def file_name_obligation(repo, log):
+    import os, re
+    from engine import rustlex as lx
+    from engine.common import Undecided, read
+    path = os.path.join(repo, FL)
+    if not os.path.exists(path):
+        raise Undecided(f"{FL} not found")
+    text = read(path)
+    msk = lx.mask(text, keep_strings=True)
+    blocks = lx.find_blocks(text, r"ChannelCommon\s*<[^{]*?>\s*for\s+MmapLog\s*<[^{]*(?=\{)", lx.mask(text))
+    hit = None
+    for (_hs, bo, bc) in blocks or []:
+        hit = lx.find_fn(text, "new", (bo, bc), lx.mask(text))
+        if hit:
+            break
+    if not hit:
+        raise Undecided(f"{FL}: fn new of the ChannelCommon impl not found")
+    s0, bo, bc = hit
+    body = lx.strip_comments(text[bo:bc + 1])
+    m = re.search(r"name\.chars\(\)\.map\(\|\s*(\w+)\s*\|", body)
+    if not m:
+        if "chars()" not in body:
+            # the name is used as it is: trivially injective
+            log["R15-file-name"] = log.get("R15-file-name", 0) + 1
+            return ("pub open spec fn file_name_char(c: char) -> char { c }\n"
+                    "pub proof fn mmap_log_file_name_is_injective(c1: char, c2: char) requires file_name_char(c1) == file_name_char(c2) ensures c1 == c2 { }\n"), \
+                   [Lemma("mmap_log_file_name_is_injective", ["C03", "C09"], clauses=["different channel names -> different backing files"])]
+        raise Undecided(f"{FL}::new: the per-character mapping of the channel name was not recognised -- contract needs review")
+    o = body.index("(", m.start() + len("name.chars().map") - 1)
+    c = lx.match_close(lx.mask(body, keep_strings=True), o)
+    closure = body[o + 1:c]
+    mm = re.match(r"\s*\|\s*(\w+)\s*\|\s*(.*)$", closure, re.S)
+    if not mm:
+        raise Undecided(f"{FL}::new: the character mapping is not a one-parameter closure -- contract needs review")
+    var, expr = mm.group(1), mm.group(2).strip()
+    log["R15-file-name"] = log.get("R15-file-name", 0) + 1
+    gen = ("/// the per-character mapping of `MmapLog::new(name)`, spliced verbatim from " + FL + "\n"
+           f"pub open spec fn file_name_char({var}: char) -> char {{ {expr} }}\n"
+           "pub proof fn mmap_log_file_name_is_injective(c1: char, c2: char) requires file_name_char(c1) == file_name_char(c2) ensures c1 == c2 { }\n")
+    return gen, [Lemma("mmap_log_file_name_is_injective", ["C03", "C09"], clauses=["different channel names -> different backing files (the per-character mapping is injective)"])]
+
+
+UNIT_NAME = Unit("mmap_log_file_name", [], spec="", generated=file_name_obligation, props=["C03", "C09"],
+                 lemmas=[Lemma("mmap_log_file_name_is_injective", ["C03", "C09"])],
+                 trusted=["`chars().map(f).collect::<String>()` and `format!(\"/tmp/{}.mmap\", s)` are injective when f is (std)"],
+                 assumptions=["channels created through MmapLog::from_file choose their file themselves (outside this obligation)"])
+UNITS.append(UNIT_NAME)
